@@ -118,8 +118,12 @@ class Ctx:
             return {"k": "star", "t": REF(self.rng.choice(ts))} if ts else {"k": "star"}
         if r < 0.88:
             return {"k": "fn", "n": self.rng.choice(["Sum", "Count", "Max", "Lower"]), "a": self.field()}
-        if r < 0.94:
+        if r < 0.93:
             return {"k": "arith", "a": self.field(), "b": I(1)}
+        if r < 0.96:
+            qs = self.selecting()
+            if qs:
+                return REF(self.rng.choice(qs))       # a sub-query in the SELECT list
         return I(self.rng.choice([1, 5]))
 
     def some(self, f, lo=1, hi=3):
